@@ -3,7 +3,7 @@ from contextlib import contextmanager
 from typing import Type, Tuple, Dict, Set
 
 from yaml import SafeLoader, BaseLoader
-from yaml.nodes import SequenceNode
+from yaml.nodes import MappingNode, SequenceNode
 from entrypoints import get_group_all as get_entrypoints
 from toposort import toposort_flatten
 
@@ -19,6 +19,20 @@ from ...interfaces._partial import Partial
 
 class COBalDLoader(SafeLoader):
     """Loader with access to COBalD configuration constructors"""
+
+    def compose_node(self, parent, index):
+        node = super().compose_node(parent, index)
+        # PyYAML consumes some nodes without ever looking at their tag (the value of
+        # a ``=`` key, the entries of ``!!omap`` and ``!!pairs``, merged mappings):
+        # reject an unknown tag on any node, not only where a constructor is looked up
+        special_key = (
+            isinstance(parent, MappingNode)
+            and index is None
+            and node.tag in ("tag:yaml.org,2002:merge", "tag:yaml.org,2002:value")
+        )
+        if not special_key and node.tag not in self.yaml_constructors:
+            self.construct_undefined(node)
+        return node
 
     def flatten_mapping(self, node):
         # PyYAML splices the content of ``<<`` values into ``node`` without ever
